@@ -24,7 +24,7 @@ if ! go test -vet=off -count=1 ./... >/tmp/cf_$$.log 2>&1; then echo "REJECTED $
 cp "$d/demo_test.go" "$demo"
 if go test $race -vet=off -count=1 -run "^($runs)\$" ./$sub >/tmp/cf_$$.log 2>&1; then echo "REJECTED $name demo passes WITH the patch"; rm -f /tmp/cf_$$.log; exit 1; fi
 withmsg=$(grep -m1 -E -- '--- FAIL|DATA RACE|panic' /tmp/cf_$$.log | cut -c1-160)
-rm -f "$demo"; git checkout -q -- . ; cp "$d/demo_test.go" "$demo"
+rm -f "$demo"; git checkout -q -- . ; git clean -fdq; cp "$d/demo_test.go" "$demo"
 if ! go test $race -vet=off -count=1 -run "^($runs)\$" ./$sub >/tmp/cf_$$.log 2>&1; then echo "REJECTED $name demo fails WITHOUT the patch"; tail -5 /tmp/cf_$$.log; rm -f /tmp/cf_$$.log; exit 1; fi
 rm -f /tmp/cf_$$.log
 echo "CONFIRMED $name sub=$sub tests=$runs race=${race:-no} with-patch: ${withmsg}"
